@@ -74,7 +74,7 @@ def run(chk):
         chk.not_decided.append("marginal sampling mode, frequency table: draws not observable (%d cases)" % len(nk))
     chk.rng_leaves = sum(t.get("leaves", 0) for t in traces)
     for kind in ("marginal", "function", "marginal_sample1"):
-        chk.add_sample(next(t for t in traces if t["kind"] == kind))
+        chk.add_sample(next((t for t in traces if t["kind"] == kind), traces[0]))
     L.judge(chk, traces, "C06")
     chk.nontrivial = len({str(t["case"]) for t in traces if len(t["first"]) > 1})
     chk.extra["rule"] = "one case = one loader input with its construction history (direct, second create_jdd, entry point); non-trivial = table with more than one key; distinct by input"
